@@ -2009,10 +2009,23 @@ def _bounded_merkle_run(seed, tier):
         ev += 1
         t1, t2 = MerkleTree.build(m1), MerkleTree.build(m2)
         for k, v in list(m2.items())[:2]:       # the incremental API reaches the same tree as build()
-            t1b = MerkleTree.build({kk: vv for kk, vv in m2.items() if kk != k})
+            base = {kk: vv for kk, vv in m2.items() if kk != k}
+            t1b = MerkleTree.build(base)
             t1b.update(k, v)
+            # a diff AGAINST a tree that was just updated, with no read of it in between (a lazily rebuilt tree must
+            # not be compared through its stale nodes)
+            r = _merkle_pair_ok(m1, t1, m2, t1b)
+            if r:
+                r["case"] += "-against-a-just-updated-tree"
+                bad.append(r)
             if t1b.root_hash != t2.root_hash:
                 bad.append({"case": "merkle-update-equals-build", "map": m2, "key": k})
+            t1c = MerkleTree.build(m2)
+            t1c.remove(k)
+            r = _merkle_pair_ok(m1, t1, base, t1c)
+            if r:
+                r["case"] += "-against-a-tree-after-remove"
+                bad.append(r)
         r = _merkle_pair_ok(m1, t1, m2, t2)
         if r:
             bad.append(r)
